@@ -4,11 +4,14 @@ NOT_BUILT = "check not built yet in this build session (planned in DESIGN.md); n
 
 claim("C03",
       "Proof, for all 32-bit inputs, that request validation equals the mathematical bound (no wrap-around), plus site "
-      "guards on the serving path; see evidence for the functions under contract. Partial: cache eviction timing and the "
+      "guards on the serving path: whatever is handed to SendPiece is in bounds of a piece that is Done, non-empty, and - "
+      "when the client is choking the peer - a piece for which the allowed-fast set answered yes (ghost-tracked Has "
+      "result on the peer's own SentAllowedFast set for exactly that piece); the reader forwards only requests of at most "
+      "16 KiB; see evidence for the functions under contract. Partial: cache eviction timing and the "
       "peer-writer goroutines are outside.",
       "DESIGN.md §4 C03")
 claim("C16",
-      "Proof that a tier rotates cyclically for ever (sequentially) and that its index stays in range; whole-program "
+      "Proof that a tier rotates cyclically for ever and that its index stays in range, also when other announces move the index while a call waits for its tracker (the index is havocked across the inner Announce, in range by rely/guarantee): a stale failure does not move the tier, a success leaves it where it is; whole-program "
       "whitelist of writers of the tier index; that an HTTP announce reads at most the configured response size; that "
       "decoding a compact peer list never indexes out of range and yields one address per six bytes or an error; that a dictionary-model peer list yields only addresses that have "
       "an IP; that every announce attempt is accounted for: when announce() returns, its outcome was offered to the "
@@ -72,7 +75,7 @@ claim("C12",
 claim("C13",
       "Proof that the only place a magnet torrent adopts metadata is guarded, on every path, by: the adopted info is the "
       "parse of exactly the byte slice whose single SHA-1 (ghost-tracked hash input) compared equal to the torrent's "
-      "info-hash, and it is not private; whole-program whitelist of writers of the info field. Partial: eventual success "
+      "info-hash, and it is not private; whole-program whitelist of writers of the info field; a metadata downloader is created only for a peer whose announced size is positive and at most MaxMetadataSize, one per peer, and nowhere else (callers whitelist). Partial: eventual success "
       "with an honest peer and the magnet string round trip are outside.",
       "DESIGN.md §4 C13")
 
@@ -103,7 +106,7 @@ claim("C18",
 claim("C07",
       "Proof that every file or directory the archive extractor creates was first checked to lie under the destination "
       "directory plus separator (ghost-tracked prefix test on exactly that name), and that nothing else in rain calls the "
-      "extractor's writer. Partial: semantics of path/filepath and strings are assumed; metainfo path cleaning is covered "
+      "extractor's writer; the storage opens exactly Join(root, Clean(name)) (ghost-tracked). Partial: semantics of path/filepath and strings are assumed; metainfo path cleaning is covered "
       "only as far as listed in the evidence.",
       "DESIGN.md §4 C07")
 
